@@ -276,6 +276,15 @@ fn check_case(c: &Case) -> Outcome {
     };
     o.class_if(shared_vocab, "shared-vocabulary");
     o.class_if(!c.static_patterns.is_empty(), "static-patterns");
+    {
+        let wv: BTreeSet<String> = c.windows.iter().flat_map(|w| vars_of(&w.patterns)).collect();
+        o.class_if(c.static_patterns.iter().any(|p| !vars_of(std::slice::from_ref(p)).is_disjoint(&wv)), "static-pattern-joins-a-window-variable");
+    }
+    if c.static_patterns.len() >= 2 {
+        let wv: BTreeSet<String> = c.windows.iter().flat_map(|w| vars_of(&w.patterns)).collect();
+        let disconnected = c.static_patterns.iter().any(|p| vars_of(std::slice::from_ref(p)).is_disjoint(&wv));
+        o.class_if(disconnected, "static-pattern-sharing-no-variable-with-any-window");
+    }
     o.class_if(c.multi_thread, "multi-thread");
     o.class(["policy:wait", "policy:steal", "policy:timeout-steal", "policy:timeout-drop"][c.policy as usize % 4]);
     o.class_if(!rows.is_empty(), "rows-emitted");
@@ -375,7 +384,7 @@ impl Part for Multi {
         let max_ev = tier.pick(24usize, 40usize);
         (
             proptest::collection::vec(window(), 2..=3),
-            proptest::collection::vec(pattern(), 0..=1),
+            proptest::collection::vec(pattern(), 0..=2),
             proptest::collection::vec(triple(), 0..=4),
             0u8..4,
             proptest::bool::weighted(0.15),
@@ -412,10 +421,13 @@ impl Part for Multi {
                 for (j, p) in static_patterns.iter_mut().enumerate() {
                     if !static_data.is_empty() {
                         let src = &static_data[j % static_data.len()];
-                        lift(p, src, "s");
+                        // a second static pattern has its own variables: it is connected to the rest of the query only if it is
+                        // made to join below (a static pattern that shares nothing with any window still constrains the answer)
+                        lift(p, src, ["s", "t"][j % 2]);
                         if let PT::Var(_) = p[0] {
                             // join the static part with block 0 half of the time
-                            if src[0].len() % 2 == 0 {
+                            // (every subject IRI of the universe has the same length, so the choice is taken from the case's size)
+                            if (events.len() + j) % 2 == 0 {
                                 p[0] = PT::Var("x0".into());
                             }
                         }
